@@ -143,8 +143,29 @@ func c07Run(r *Run) {
 			frontier = next
 		}
 	}
+	// any other evaluation method of a node that looks a property declaration up on a value it evaluated
+	// (a destructuring target, an assignment node with a property branch of its own) is an access path too
+	propertyPath := map[*ast.FuncDecl]bool{}
+	for _, fd := range funcDecls(npkg) {
+		if fd.Recv == nil || fd.Body == nil || accessNodeType(fd) {
+			continue
+		}
+		switch fd.Name.Name {
+		case "GetValue", "SetValue", "GetZVal", "Call":
+		default:
+			continue
+		}
+		ast.Inspect(fd.Body, func(n ast.Node) bool {
+			if c, ok := n.(*ast.CallExpr); ok {
+				if se, ok := ast.Unparen(c.Fun).(*ast.SelectorExpr); ok && se.Sel.Name == "GetPropertyStmt" && len(c.Args) == 1 {
+					propertyPath[fd] = true
+				}
+			}
+			return true
+		})
+	}
 	accessNode := func(fd *ast.FuncDecl) bool {
-		return accessNodeType(fd) || accessHelper[fd]
+		return accessNodeType(fd) || accessHelper[fd] || propertyPath[fd]
 	}
 	// self:: / static:: / parent:: can only be written inside class code: the caller is in the
 	// hierarchy by construction, so the outside rule is not armed there.
